@@ -33,7 +33,7 @@ ASSUMPTIONS = [
     "composed sets whose oracle reference cannot be produced (measure-zero intersections, unbounded operands) are only checked for membership",
 ]
 MIN_COUNTERS = {
-    "quick": {"regions_sampled": 500, "draws_checked_for_membership": 300000, "uniformity_tests": 250, "discrete_enumerations": 40, "composed_regions_sampled": 400, "visible_restrictions_sampled": 10, "not_visible_restrictions_sampled": 10, "pointset_intersections_enumerated": 8},
+    "quick": {"regions_sampled": 500, "draws_checked_for_membership": 300000, "uniformity_tests": 300, "discrete_enumerations": 40, "composed_regions_sampled": 400, "visible_restrictions_sampled": 10, "not_visible_restrictions_sampled": 10, "pointset_intersections_enumerated": 8},
     "thorough": {"regions_sampled": 2000, "draws_checked_for_membership": 6000000, "uniformity_tests": 1200, "discrete_enumerations": 120, "composed_regions_sampled": 1500, "visible_restrictions_sampled": 60, "not_visible_restrictions_sampled": 60, "pointset_intersections_enumerated": 30},
 }
 MANIFEST_ENTRY = {
@@ -49,7 +49,7 @@ ALPHA = 1e-9
 def budgets(tier):
     # draws for fast samplers, for mesh samplers, attempt cap for generic composite samplers
     # (+ the same two numbers for composite samplers one of whose operands is mesh-based: ~20-50 ms per attempt)
-    return (4000, 150, 2600, 150, 260) if tier == "quick" else (20000, 300, 14000, 300, 600)
+    return (2500, 120, 1600, 120, 220) if tier == "quick" else (20000, 300, 14000, 300, 600)
 
 
 def plan(tier, seed):
@@ -68,6 +68,10 @@ def plan(tier, seed):
         for kb in ro.KINDS:
             for inst in range(n_pair):
                 tasks.append(["pair", ka, kb, inst])
+    # designed heavy-overlap operands for the generic union / intersection samplers (no specialised union exists
+    # for voxel grids): B is A's occupancy pattern re-drawn on the same lattice, shifted by one cell
+    for inst in range(3 if tier == "quick" else 24):
+        tasks.append(["overlap", "voxel", "voxel", inst])
     shards = [{"shard": s, "tasks": [], "timeout": 1500 if tier == "quick" else 3400} for s in range(nsh)]
     for i, t in enumerate(tasks):
         shards[(i * 5 + i // nsh) % nsh]["tasks"].append(t)
@@ -267,6 +271,12 @@ def check_sampler(mon, R, O, tier, rng, label, op=None, extra=None):
                 mon.nontrivial = True
         return
     # --- continuous samplers
+    if hasattr(R, "num_samples"):
+        k, ns = outcome(lambda: R.num_samples)
+        if k != "ok" or ns > 400:
+            # rejection sampler with up to 1e6 candidate points per draw (sliver-like mesh): too costly to drive
+            mon.skip("mesh_sampler_tiny_volume_fraction")
+            return
     n, cap = n_draws(rc, R, tier)
     P, tries, rej, err, unsup = draw_points(R, n, cap)
     mon.bump("sampler_attempts", tries)
@@ -320,6 +330,20 @@ def check_sampler(mon, R, O, tier, rng, label, op=None, extra=None):
     expected = rcnt / rcnt.sum() * len(P)
     dead = np.where((expected >= 40) & (pcnt == 0))[0]
     stat, df, pval = ro.homogeneity(rcnt, pcnt)
+    if O.kind == "combo":
+        # second partition, by which operands contain the point (A only / B only / both): operand-weighting and
+        # multiplicity errors of composed samplers show up here even when they are spatially fine-grained
+        sr = O.A.nominal(ref).astype(int) * 2 + O.B.nominal(ref).astype(int)
+        sp = O.A.nominal(P).astype(int) * 2 + O.B.nominal(P).astype(int)
+        s2, df2, p2 = ro.homogeneity(np.bincount(sr, minlength=4), np.bincount(sp, minlength=4))
+        mon.bump("operand_signature_tests")
+        if p2 < ALPHA and p2 < pval:
+            names = {1: "B only", 2: "A only", 3: "both", 0: "neither"}
+            fr = np.bincount(sr, minlength=4) / len(sr)
+            fp = np.bincount(sp, minlength=4) / len(sp)
+            desc = ", ".join(f"{names[i]}: expected {fr[i]:.3f} got {fp[i]:.3f}" for i in range(4) if fr[i] or fp[i])
+            mon.report("uniformity", f"{label}: {len(P)} draws weight the operands' parts wrongly (natural measure of the composed set): {desc}; chi2 = {s2:.1f} (df {df2}, p = {p2:.2e})", dict(info, **_mech(mon, R, O, ref[0], False, ref)))
+            return
     if len(dead) or pval < ALPHA:
         # locate the most under-represented cell for the report
         worst = int(np.argmin((pcnt + 1) / (expected + 1)))
@@ -410,7 +434,17 @@ def gen_case(kind, ka, kb, inst, seed, tier):
         rng = np.random.default_rng([int(seed), 303, ro.KINDS.index(ka), int(inst)])
         d = ro.gen(ka, rng)
         return {"mode": "prim", "A": d, "B": d, "pseed": int(rng.integers(0, 2**31))}
-    case = c16.gen_case(ka, kb, inst + 1000, seed, tier)  # instances disjoint from C16's
+    if kind == "overlap":
+        rng = np.random.default_rng([int(seed), 909, int(inst)])
+        dA = ro.gen("voxel", rng, z=0.0)
+        pa = dA["params"]
+        D = np.array(pa["dense"], bool)
+        D2 = np.roll(D, 1, axis=0) | (rng.random(D.shape) < 0.25)
+        D2[-1, -1, -1] = False
+        pb = {"dense": D2.astype(int).tolist(), "pitch": pa["pitch"], "origin": [pa["origin"][0] + pa["pitch"], pa["origin"][1], pa["origin"][2]]}
+        return {"mode": "pair", "A": dA, "B": {"kind": "voxel", "params": pb}, "relation": "designed-overlap", "pseed": int(rng.integers(0, 2**31)), "nprobe": 0}
+    # instances disjoint from C16's; operands mostly overlapping (composed samplers are only interesting then)
+    case = c16.gen_case(ka, kb, inst + 1000, seed, tier, p_far=0.04, p_nested=0.3, max_offset=1.1)
     case["mode"] = "pair"
     return case
 
